@@ -40,7 +40,7 @@ def probe_oracle(p: bytes) -> dict:
 
 
 def run_discovery(plan, *, target="255.255.255.255", single=False, auto_connect=False, tcp_devices=None, timeout=5, cloud_client=None,
-                  account=None, password=None, region=None, keep_lock=False):
+                  account=None, password=None, region=None, keep_lock=False, udp_send_error=None):
     """plan: list of (delay_s, src_ip, src_port, data) datagrams sent after the first probe is seen.
     Returns the vector for Trace_Disc (probes, arrivals in delivery order, result / exception)."""
     from msmart.discover import Discover
@@ -60,6 +60,8 @@ def run_discovery(plan, *, target="255.255.255.255", single=False, auto_connect=
                 tr.inject(d, (ip, port))
             loop.call_later(delay + k * 1e-6, fire)
     net.on_udp = on_udp
+    if udp_send_error is not None:
+        net.udp_send_error = udp_send_error
     if tcp_devices:
         tcp_devices(loop, net)
     vec = {"target": target, "exc": "", "result": [], "probes": [], "arrivals": arrivals}
